@@ -128,6 +128,136 @@ CHECKS = {
              "directed schedules must now pass",
         technique="TLA+ spec + TLC model checking + TLC trace validation of generated, directed and free-running executions",
         design_ref="DESIGN.md 4.14, 5/C18"),
+    "C04": dict(
+        category="model_checking",
+        text="ChannelCloseMC (Channel + history of every commitment a party ever held) checks RevLogMatches (the revocation log "
+             "entry for height h mirrors exactly the commitment the peer held at h), RevokedIsLoggedOrCurrent and "
+             "EveryBroadcastableIsKnown exhaustively within bounds. On the code: TLC-generated channel histories are driven "
+             "through two real channels (all 7 types, lease fixtures with ThawHeight>0); for every revoked height, both "
+             "parties as cheater, after reloads, with the breach tx / from stored amounts / without stored amounts: "
+             "NewBreachRetribution -> contractcourt's newRetributionInfo -> createJusticeTx variants -> btcd script engine on "
+             "every input against the cheater's REAL revoked transaction, and the second-level revoke path; the number and "
+             "amounts of inputs, output indexes, state-hint decoding and engine verdicts are validated by TLC against the "
+             "model's revoked commitment (ChannelCloseTrace Justice events).",
+        note="legacy revocation-log format and watchtower kits not covered; base model kept in sync through error agreement "
+             "only (exported API); known finding F11 (lease channel justice tx locktime) reported as KNOWN-FINDING with the "
+             "rest of the lease traces re-judged under the named deviation",
+        technique="TLA+ spec + TLC model checking + justice transactions built by the real code validated by the script engine and judged by TLC",
+        design_ref="DESIGN.md 4.1, 5/C04"),
+    "C05": dict(
+        category="model_checking",
+        text="Same model as C04 (EveryBroadcastableIsKnown: every commitment the peer can broadcast mirrors our durable remote "
+             "commitment or pending commit diff). On the code: while replaying TLC-generated histories (mid-dance states with "
+             "pending remote commitments, duplicates, dust boundaries, fee changes, reloads) SHADOW copies reloaded from the "
+             "database are force-closed and NewUnilateralCloseSummary is run for the peer's current and pending commitment; "
+             "own commitment against the funding output (incl. MuSig2), every second-level timeout/success tx, CSV sweeps "
+             "(valid at maturity, rejected one block early with the locktime error), to-remote and direct HTLC spends go "
+             "through the script engine; TLC validates the number and identity of resolutions, lock times/sequences/CSV "
+             "values and the claimable value to the satoshi against the model commitment (CloseCheck events).",
+        note="fee sufficiency of sweeps, anchors' CPFP and aux leaves are out of scope; balance-output trimming is specified "
+             "but not exercised (reserve keeps balances high); witness-type choice replicated from contractcourt's resolvers",
+        technique="TLA+ spec + TLC model checking + script-engine validation of every spend, counts/values judged by TLC trace validation",
+        design_ref="DESIGN.md 4.1, 5/C05"),
+    "C07": dict(
+        category="model_checking",
+        text="spec/CircuitMap models the two buckets, the pending/opened/closed maps, every operation as its critical sections "
+             "(CommitMem/CommitDisk/Rollback, OpenCheck/OpenDisk/OpenApply, TrimMem/TrimDisk, DeleteMem/DeleteDisk/Restore), "
+             "write failure at any transaction, crash at any moment and the three start-up steps; caller assumptions A1-A6 "
+             "are named guards. TLC checks AtMostOnceForward, AtMostOneResponse, RestartExact, MemDiskAgree, "
+             "OpenedSubsetPending ... for sequential, 2- and 3-thread configurations. Generated behaviours and a seeded "
+             "3-thread driver run on the real NewCircuitMap over bolt behind the gated/crashing/failing kvdb wrapper, threads "
+             "released phase by phase; returned CircuitFwdActions, errors, memory maps, both buckets and lookups after every "
+             "phase and restart are validated by TLC.",
+        note="kvdb.Batch coalescing disabled by the wrapper; switch-level code (closeCircuit, teardownCircuit) is left to C08; "
+             "API-level anomalies outside the switch's call discipline (H9, H10, H11) are explored in the thorough tier and "
+             "reported as KNOWN-FINDING",
+        technique="TLA+ spec + TLC model checking + deterministic replay of thread interleavings/crashes/write failures on the real circuit map + TLC trace validation",
+        design_ref="DESIGN.md 4.3, 5/C07"),
+    "C09": dict(
+        category="model_checking",
+        text="spec/ForwardPolicy states every rule of the property as a predicate over ideal integers (Violated = set of violated "
+             "rule names) next to a link.go-shaped machine with the code's word widths as parameters; TLC checks "
+             "DecisionAgrees/AcceptOnlyIf/NoLoss on a boundary lattice of ~0.55M cases (every comparison's -1/0/+1 "
+             "neighbourhood, signed inbound fees with rounding) with ideal and scaled words, Apalache checks the real-width "
+             "(2^64/2^32) machine symbolically over the whole realistic box. Every lattice case is executed on a real "
+             "channelLink (CheckHtlcForward and CheckHtlcTransit) and judged by TLC; seeded 64-bit cases and out-of-box "
+             "witnesses (fixed and Apalache-generated) are judged by Apalache in chunks.",
+        note="must-agree domain = realistic box (out <= 1e12 msat, rates <= 1e6 ppm, heights < 2^31); no AuxTrafficShaper; "
+             "F5 repaired (881cf42, its witnesses now must agree); known finding F5b (uint32 wrap near height 2^32)",
+        technique="TLA+ spec + TLC exhaustive lattice + Apalache symbolic check + TLC/Apalache validation of real verdicts",
+        design_ref="DESIGN.md 4.5, 5/C09"),
+    "C10": dict(
+        category="other",
+        text="PARTIAL. Decided with the spec: tlv.Stream.Decode/DecodeP2P/DecodeWithParsedTypes(P2P) accept exactly canonical "
+             "streams and decode-then-encode reproduces the input - TlvStream's recogniser vs an independently written "
+             "Canonical is model checked for all byte strings <= 6 over an 8-byte alphabet and for all token sequences of "
+             "<= 2-3 records over 13 symbolic BigSize classes (minimal/non-minimal, complete/cut), and every such input is "
+             "executed on the four real entry points and judged by TLC; lnwire framing (dispatch of all 65536 types/failure "
+             "codes, 65533 bound). The codec laws (totality incl. allocation bound, bound, fixpoint, round trip, unknown odd "
+             "record preserved) are checked by TLC on a TLC-enumerated mutation plan of 2426 cells x repetitions over all 42 "
+             "message types and 25 failure codes. NOT decided by a model: the ~60 field layouts themselves.",
+        note="level 'other': the law part is input exploration with a thin specification; tlv code is exercised inside /repo/tlv "
+             "(the main module uses the cached tlv v1.4.0); F4 and F18 repaired, known finding F4b (non-P2P DVarBytes "
+             "pre-allocation)",
+        technique="TLA+ recogniser vs declarative canonicity (TLC exhaustive) + TLC trace validation of real decoders + law monitor over a TLC-enumerated mutation plan",
+        design_ref="DESIGN.md 4.6, 5/C10, 6"),
+    "C12": dict(
+        category="model_checking",
+        text="spec/ChainActions: a cell (<= 2-3 HTLCs with direction, forwarded/own, preimage known, height relative to the "
+             "deadline, presence absent/dust/output on local/remote/pending, restricted to protocol-allowed patterns) x the "
+             "arbitrator's paths (StateDefault pass, broadcast, close event local/remote/pending/breach/coop, "
+             "StateContractClosed pass); classification operators mirror the code, the property's dispositions "
+             "(GoesOnChainInTime, GoesOnChainOnlyWithReason, ResolverOnce, FailBackOnce, NoFailBackWithOutput, ClosedOutOnce) "
+             "are written from the statement over history variables. TLC enumerates every 1-HTLC cell x path (36k "
+             "schedules) and bounded 2-3 HTLC universes; its counterexamples are exactly the known classes. All/sampled "
+             "schedules run on a started real ChannelArbitrator with the real bolt log, each repeated 3x/8x (Go map order); "
+             "action maps, resolvers, fail-backs and state commits are validated by TLC.",
+        note="resolver behaviour after insertion belongs to C13; HTLC sets static within a run; CommitSets built by the "
+             "executor; F3c repaired (1eb7c38); known findings F3a, F3b, F3d reported per cell class as KNOWN-FINDING",
+        technique="TLA+ spec + TLC enumeration of all cells and paths + execution of every schedule on the real arbitrator + TLC trace validation",
+        design_ref="DESIGN.md 4.8, 5/C12, 10.4"),
+    "C14": dict(
+        category="model_checking",
+        text="spec/TxNotifier models the chain (blocks over conflicting txs/spenders), reorg depth below the safety limit, the "
+             "three height indexes, per-request rescan status/details, persisted hints and per-client queues with actions "
+             "Connect(+NotifyHeight), Disconnect, RegisterConf/Spend (any time, any correct hint), Cancel, historical results "
+             "racing with blocks; TLC checks ConfTimely/ConfTruthful/ConfSound (and the spend analogues), "
+             "NegOnlyOnDisconnect, DoneOnlyDeep, ConfHintSafe/SpendHintSafe, NoPanic over all histories within bounds. "
+             "Generated behaviours, two directed schedules and a free-running driver run on the real TxNotifier with the real "
+             "height-hint cache on bolt; every drained notification and both hints after every call are validated by TLC.",
+        note="clients empty their channels between calls; historical answers are the truth at delivery (O1 excluded); backend "
+             "drivers out of scope; F10 repaired (6d8df39): generated behaviours now include orphaned rescans",
+        technique="TLA+ spec + TLC model checking + TLC trace validation of generated, directed and free-running executions",
+        design_ref="DESIGN.md 4.10, 5/C14"),
+    "C19": dict(
+        category="model_checking",
+        text="SOUNDNESS ONLY. spec/Route writes ValidRoute from the property text as ten clauses (connected, hop bounds, fees paid "
+             "incl. inbound fees floored per node, deltas, final hop, fee limit, CLTV limit, restrictions, payload, totals) and "
+             "a hop-by-hop payment machine applying the C09 rules; TLC checks Payable (ValidRoute => never refused by any "
+             "hop) on the -1/0/+1 lattice around the model route over three graph universes. TLC generates multigraphs "
+             "(parallel channels, asymmetric/disabled policies, signed inbound fees, one bound placed exactly at or 1 msat "
+             "beyond what the path needs) and 8-10 requests each (limits at/1 below/1 above the cost, outgoing-channel sets, "
+             "last hop, ignored nodes/pairs, self-payment, route hints); the real findPath+newRoute answers are validated by "
+             "TLC clause by clause.",
+        note="a 'no route' answer is never judged (completeness/optimality not claimed); probabilities fixed to 1; no blinded "
+             "tails; small amounts (64-bit arithmetic is C09's subject)",
+        technique="TLA+ spec + TLC model checking of payability + TLC as generator and as judge of routes returned by the real pathfinder",
+        design_ref="DESIGN.md 4.15, 5/C19"),
+    "C20": dict(
+        category="model_checking",
+        text="spec/Gossip: 2 channels, 3 nodes, timestamps 0..3; a message universe of 1544 messages (valid + every single-defect "
+             "variant: each of the 4 signatures, each signed field/key, funding missing/spent/wrong script, wrong-direction "
+             "signer, stale/equal/zero timestamp, inconsistent fields); the gossiper's outcomes as named actions incl. stash "
+             "and replay of premature updates, zombie/reject caches; the property written declaratively "
+             "(OnlyAuthenticFresh, NoRelayWithoutApply, PolicyMonotone, NodeHasChannel, RelayedAuthentic) and checked by TLC "
+             "for all sequences <= 4-5 with replays. Really signed then corrupted messages are fed to the real gossiper with "
+             "the package's graph source AND with the real graph.Builder + graphdb on bolt: simulated behaviours, a sweep of "
+             "the universe after 7 preludes, and single-bit flips of every byte offset; results, graph projection and relayed "
+             "messages are validated by TLC.",
+        note="gossip v1 only; messages fed one at a time (validation barrier concurrency not explored); rate limiter not in "
+             "schedules; SQL graph store not run",
+        technique="TLA+ spec + TLC model checking + TLC trace validation of really signed/corrupted messages on the real gossiper and graph builder",
+        design_ref="DESIGN.md 4.16, 5/C20"),
     "C06": dict(
         category="model_checking",
         text="spec/Shachain is checked exhaustively by TLC for trees of height 4-5 (thorough: up to 8) incl. corrupted "
